@@ -145,7 +145,8 @@ def getDistance (t : T Rat) (topo : Bool) (i j : Nat) : Except Err Rat :=
   if i ≥ t.leaves.length ∨ j ≥ t.leaves.length then .error .indexError else
   match leafPath? t i, leafPath? t j with
   | some p, some q => distanceTo t topo p q
-  | _, _ => .error (.other "AttributeError")
+  | none, _ => .error (.other "AttributeError")      -- `self._leaves[i]` is None (index carried by no leaf)
+  | some _, none => .error (.other "TreeError")      -- `distance_to(None)`: no common ancestor
 
 /-! ## `copy` -/
 mutual
@@ -322,6 +323,9 @@ def labelIndex (labels : Option (List (List Char))) (l : List Char) : Except Err
     | '-' :: r => match (String.ofList r).toNat? with
       | some 0 => .ok 0
       | _ => .error .valueError
+    | '+' :: r => match (String.ofList r).toNat? with     -- `int("+3")` is 3
+      | some i => .ok i
+      | none => .error .valueError
     | _ => match (String.ofList l).toNat? with
       | some i => .ok i
       | none => .error .valueError
